@@ -299,10 +299,14 @@ func (s *state) outcome() string {
 func main() {
 	_ = logger.SetLogLevel("*:NONE")
 	mc.Main("C34", "model_checking", func(c *mc.Ctx) {
-		horizon := uint64(c.Pick(14, 20))
+		horizon := uint64(c.Pick(14, 26))
 		rpes := []int64{3, 4, 6}
-		mins := []int64{1, 2, 3}
-		c.Rule = fmt.Sprintf("explicit-state BFS with state matching to fixpoint, one search per setting roundsPerEpoch %v x minRoundsBetweenEpochs %v, trigger created at epoch 0 / round 0: all sequences of "+
+		mins := []int64{2, 3, 1} // order only matters for which witness is printed first
+		if !c.Quick() {
+			rpes = []int64{3, 4, 6, 9}
+			mins = []int64{2, 3, 5, 1}
+		}
+		c.Rule = fmt.Sprintf("explicit-state BFS with state matching to fixpoint, one search per setting roundsPerEpoch %v x minRoundsBetweenEpochs %v (min <= roundsPerEpoch, as the constructor demands), trigger created at epoch 0 / round 0: all sequences of "+
 			"Update(round+d, nonce) d in {0,1,2,3} nonce in {1,100} while round <= %d, ForceEpochStart(r) for every r in 0..%d and r in {2^63, 2^64-2, 2^64-1} (past, present, future, rejected), "+
 			"SetProcessed(start-of-epoch meta block at the current round, epoch = Epoch()) whenever IsEpochStart(); "+
 			"non-trivial = an epoch start (false->true flip of IsEpochStart) caused by a force request, i.e. at most roundsPerEpoch rounds after the previous start (distinguished by setting, kind of the force request, gap)",
@@ -316,8 +320,11 @@ func main() {
 			"rounds are non-decreasing (d=0 repeats the round, as CreateNewHeader/ProcessBlock do)",
 		}
 		var systems []*system
-		for _, m := range []int64{2, 3, 1} { // order only matters for which witness is printed first
+		for _, m := range mins {
 			for _, r := range rpes {
+				if m > r {
+					continue
+				}
 				systems = append(systems, newSystem(len(systems), r, m, horizon))
 			}
 		}
@@ -352,7 +359,7 @@ func main() {
 			c.Set("states "+y.describe(), st.States)
 		}
 		if allFix {
-			c.Bound = fmt.Sprintf("fixpoint for all %d settings under round horizon %d: every reachable state expanded with every enabled operation (deepest new state at depth %d)", len(systems), horizon, maxDepth-1)
+			c.Bound = fmt.Sprintf("fixpoint for all %d settings under round horizon %d: every reachable non-violating state expanded with every enabled operation (deepest new state at depth %d; violating states are reported and not expanded)", len(systems), horizon, maxDepth-1)
 		} else {
 			c.Bound = "fixpoint NOT reached for every setting (states that violate are not expanded)"
 			if c.NumViolations() == 0 {
